@@ -115,6 +115,25 @@ fn ideal_ack_size(tracked: &BTreeSet<u64>, largest: u64, delay_us: u64) -> (usiz
     (size, ranges)
 }
 
+/// encoded size of the ideal frame cut to the first range plus `extra` further ranges
+fn truncated_ack_size(ranges: &[(u64, u64)], largest: u64, delay_us: u64, extra: usize) -> usize {
+    let vs = |v: u64| VarInt::from_u64(v).unwrap().encoding_size();
+    let extra = extra.min(ranges.len().saturating_sub(1));
+    let mut size = 1 + vs(largest) + vs(delay_us) + vs(extra as u64);
+    if let Some((hi, lo)) = ranges.first() {
+        size += vs(hi - lo);
+    }
+    for w in ranges.windows(2).take(extra) {
+        size += vs(w[0].1 - w[1].0 - 2) + vs(w[1].0 - w[1].1);
+    }
+    size
+}
+
+/// `GenAck::capacity` values with this bit set are relative: bits 2..15 = number of further ranges k the offered
+/// space is cut for, bits 0..1 = 0/1/2 for one byte less than / exactly / one byte more than the frame with k further
+/// ranges needs (the boundaries at which a size estimate that is one byte off shows)
+pub const CAP_RELATIVE: u16 = 0x8000;
+
 impl Engine for JournalSim {
     type Case = Case;
     fn name(&self) -> &'static str {
@@ -136,16 +155,19 @@ impl Engine for JournalSim {
     fn generate(&self, _index: u64, seed: u64, _tier: Tier) -> Case {
         let mut r = Rng::derive(seed, "workload");
         let long = r.one_in(5);
-        let nops = r.range(3, if long { 400 } else { 80 });
-        let w_send = r.range(3, 10);
-        let w_deliver = r.range(1, 8);
-        let w_genack = r.range(1, 5);
+        // "gappy" histories: many packets, a third to a half of them lost, no rotation, so that the receiver tracks
+        // dozens to hundreds of separate ranges and ACK generation runs into its size boundaries
+        let gappy = r.one_in(8);
+        let nops = if gappy { r.range(150, 900) } else { r.range(3, if long { 400 } else { 80 }) };
+        let w_send = if gappy { 10 } else { r.range(3, 10) };
+        let w_deliver = if gappy { 12 } else { r.range(1, 8) };
+        let w_genack = if gappy { 2 } else { r.range(1, 5) };
         let w_dack = r.range(1, 5);
-        let w_adv = r.range(0, 3);
+        let w_adv = if gappy { 0 } else { r.range(0, 3) };
         let w_loss = r.range(0, 3);
         let w_fr = r.range(0, 2);
-        let w_aoa = r.range(0, 3);
-        let p_drop = if r.one_in(2) { r.f64() * 0.4 } else { 0.0 };
+        let w_aoa = if gappy { 0 } else { r.range(0, 3) };
+        let p_drop = if gappy { 0.3 + r.f64() * 0.25 } else if r.one_in(2) { r.f64() * 0.4 } else { 0.0 };
         let p_dup = if r.one_in(2) { r.f64() * 0.3 } else { 0.0 };
         let reorder = r.one_in(2);
         let total = w_send + w_deliver + w_genack + w_dack + w_adv + w_loss + w_fr + w_aoa;
@@ -190,11 +212,22 @@ impl Engine for JournalSim {
             } else if take(w_genack) {
                 Op::GenAck {
                     sel: if r.one_in(4) { r.below(6) as u8 } else { 0 },
-                    capacity: match r.below(4) {
+                    capacity: match r.below(if gappy { 8 } else { 5 }) {
                         0 => 0,
                         1 => r.range(3, 12) as u16,
                         2 => r.range(5, 40) as u16,
-                        _ => r.range(5, 300) as u16,
+                        3 => r.range(5, 300) as u16,
+                        _ => {
+                            // cut for k further ranges, one byte around the exact need; k biased to the varint
+                            // boundary of the range count (63 / 64)
+                            let k = match r.below(4) {
+                                0 => r.range(0, 8),
+                                1 => r.range(60, 68),
+                                2 => r.range(0, 300),
+                                _ => 8191,
+                            } as u16;
+                            CAP_RELATIVE | (k << 2) | r.below(3) as u16
+                        }
                     },
                     fate: fate(&mut r),
                 }
@@ -453,10 +486,22 @@ async fn run(case: &Case) -> Outcome {
                 }
                 let largest = *tracked.iter().rev().nth((*sel as usize).min(tracked.len() - 1)).unwrap();
                 let rcvd_time = received[&largest];
-                let cap = if *capacity == 0 { 1200 } else { *capacity as usize };
                 let my_pn = r_next_pn;
                 let delay_us = rcvd_time.elapsed().as_micros() as u64;
                 let (ideal, ideal_ranges) = ideal_ack_size(&tracked, largest, delay_us);
+                let cap = if *capacity == 0 {
+                    1200
+                } else if *capacity & CAP_RELATIVE != 0 {
+                    let k = ((*capacity & !CAP_RELATIVE) >> 2) as usize;
+                    let need = truncated_ack_size(&ideal_ranges, largest, delay_us, k);
+                    out.stats.bump("probe.ack_capacity_at_boundary");
+                    if ideal_ranges.len() > 64 && k.min(ideal_ranges.len() - 1) >= 63 {
+                        out.stats.bump("probe.ack_capacity_boundary_64_ranges");
+                    }
+                    (need + (*capacity & 3) as usize).saturating_sub(1).max(3)
+                } else {
+                    *capacity as usize
+                };
                 match rcvd.gen_ack_frame_util(my_pn, largest, rcvd_time, cap) {
                     Ok(frame) => {
                         r_next_pn += 1;
